@@ -77,7 +77,7 @@ func runC17(c *Ctx) {
 	p := c.Progs["mod"]
 	c.Rule("C17.A", "every store access of an agent endpoint is dominated by a successful backend check", 9)
 	c.Rule("C17.B", "the backend ID used is the validated one; the check itself is sound", 13)
-	c.Rule("C17.C", "401 and nothing else on a failed check", 3)
+	c.Rule("C17.C", "401 and nothing else on a failed check; no answer before the check", 6)
 	c.Rule("C17.D", "admin gate", 5)
 	c.Rule("C17.E", "end users only reach their own or shared backends", 7)
 	c.Rule("C17.S", "sibling agreement of the two Store implementations; injective keys", 18)
@@ -135,6 +135,18 @@ func runC17(c *Ctx) {
 		hit, _ := (&Walk{Target: IsReturn, Avoid: is401, Ctx: f}).FromBlock(ifi.Block().Succs[fail])
 		other, _ := (&Walk{Target: func(i ssa.Instruction) bool { st, ok := producesResponse(i, w); return ok && st != 401 }, Ctx: f}).FromBlock(ifi.Block().Succs[fail])
 		c.Check("C17.C", ep+":401-only", p, ifi.Pos(), hit == nil && other == nil, "a failed check is answered 401 on every path and nothing else is written", "a failed backend check in "+ep+" is not answered with exactly 401 (other status, or a path without answer)")
+		early, _ := (&Walk{Target: func(i ssa.Instruction) bool {
+			if r, isR := i.(*ssa.Return); isR {
+				return r.Parent() == f
+			}
+			_, ok := producesResponse(i, w)
+			return ok
+		}, Avoid: func(i ssa.Instruction) bool { return i == cb }}).FromBlock(f.Blocks[0])
+		where := ""
+		if early != nil {
+			where = p.Pos(early.Pos())
+		}
+		c.Check("C17.C", ep+":no-answer-before-check", p, cb.Pos(), early == nil, "no status is written and the endpoint does not return before checkBackendID has run", "agent endpoint "+ep+" answers (or returns) at "+where+" before the caller was authorised: an unauthorised caller gets a status other than 401 (request validation runs before authorisation)")
 		// ---- C17.B: backendID roles
 		EachInstr(f, func(i ssa.Instruction) {
 			if !isSens(i) {
